@@ -406,10 +406,16 @@ func runC15(c *Ctx) {
 		c.check(nSec == 1, "handler-keeps-sections", h.Pos(), "the handler's only write to the reply's sections is the OPT append", fmt.Sprintf("the handler writes the reply's sections %d times: a later write (e.g. clearing Extra on truncated replies) drops the response OPT the client is owed", nSec))
 		// every reply that is packed passed the RespOpt decision
 		pk := h.Params[len(h.Params)-1]
+		// the RespOpt() call whose result decides the append (the handler also asks RespOpt() to see whether an extended
+		// rcode can be sent at all, D20 — that call is inside a short-circuit condition and dominates nothing)
 		var respOptCall ssa.Instruction
 		eachInstr(h, func(in ssa.Instruction) {
 			if ci, ok := in.(*ssa.Call); ok && callName(ci) == "(*"+relQctx+".Context).RespOpt" {
-				respOptCall = in
+				for _, r := range referrers(ci) {
+					if bo, ok := r.(*ssa.BinOp); ok && bo.Op == token.NEQ && isNilConst(bo.Y) {
+						respOptCall = in
+					}
+				}
 			}
 		})
 		all := respOptCall != nil
